@@ -38,6 +38,7 @@ class Run:
         self.ci_shapes = {}
         self.unschedulable = None
         self.results = {}
+        self.fed_back = set()
 
     def count(self, k, n=1):
         self.counters[k] = self.counters.get(k, 0) + n
@@ -106,9 +107,34 @@ class Run:
         self.edited = True
         return []
 
+    def step_other_wbs(self, i, op):
+        """the same scheduler object is used for a DIFFERENT WBS in between (a clone with one task removed);
+        only the outcome type is judged here, the point is the repeat on the original WBS that follows"""
+        w = self.w
+        name = op.get('remove')
+        if name not in w.tasks or op['sched'] not in w.schedulers:
+            return []
+        clone = w.wbs.clone()
+        try:
+            clone.remove(clone[w.id_of[name]])
+        except RuntimeError:
+            return []
+        out = w.calc(dict(op, op='calc', fresh=False), wbs=clone)
+        self.log.add('calc_other_wbs', i, name, out['outcome'], out.get('exc'))
+        self.count('probe.scheduler_reused_for_other_wbs')
+        params = self.sc['schedulers'][op['sched']]
+        c = so.Ctx(w, self.st, op, out, None, params, self.sched_proj.get(op['sched']))
+        if out['outcome'] == 'budget':
+            return [so.V('C14', 'no-termination', 'calc on the reduced WBS exceeded the step budget', c)]
+        if out['outcome'] == 'exc' and out['exc'][0] != 'RuntimeError':
+            return [so.V('C14', 'crash', f'calc on the reduced WBS raised {out["exc"][0]}: {out["exc"][1]}', c)]
+        return []
+
     def step(self, i, op):
         if op['op'] == 'mutate':
             return self.step_mutate(i, op)
+        if op['op'] == 'calc_other_wbs':
+            return self.step_other_wbs(i, op)
         if op.get('on_result') is not None:
             return self.step_on_result(i, op)
         return self.step_calc(i, op, None)
@@ -119,6 +145,7 @@ class Run:
         if prev is None:
             return []
         wbs2 = prev.schedule
+        self.fed_back.add(op['on_result'])   # this result object is edited by the simulator itself from here on
         sc2 = _copy.deepcopy(self.sc_cur)
         by_id = {t.id: t for t in wbs2.tasks}
         for t in sc2['tasks']:
@@ -202,6 +229,17 @@ class Run:
             vs.append(r)
             if r.clause != 'missing-dates':
                 return vs
+        # ---- results handed out earlier stay what they were (a Schedule is a value, not a view of the scheduler)
+        for j, old in list(self.results.items()):
+            if j == i or self.views.get(j) is None or j in self.fed_back:
+                continue
+            now_j = comparable(result_view(w, old))
+            if now_j != self.views[j]:
+                msg = f'the Schedule returned by calc #{j} changed after calc #{i}: {first_diff(self.views[j], now_j)}'
+                vs.append(so.V('C06', 'earlier-result-changed', msg, c))
+                vs.append(so.V('C04', 'earlier-result-changed', msg, c))
+                vs.append(so.V('C03', 'earlier-result-changed', msg, c))
+                break
         # ---- determinism / clock independence (C06)
         ref_i = op.get('equal_to')
         if ref_i is not None and self.views.get(ref_i) is not None and not self.edited and wbs is None:
